@@ -1,5 +1,7 @@
 import UtilModel.Treiber.Props
 import UtilModel.LinkedList.Props
+import UtilModel.Treiber.Transfer
+import UtilModel.LinkedList.Transfer
 open UtilModel
 #print axioms UtilModel.accepts_sound
 #print axioms UtilModel.accepted_satisfies
@@ -33,3 +35,6 @@ open UtilModel
 #print axioms LinkedList.abs_eq
 #print axioms LinkedList.cands_complete
 #print axioms LinkedList.deque_conservation
+#print axioms UtilModel.C12_accepted_lifo
+#print axioms UtilModel.C12_accepted_linkedlist
+#print axioms UtilModel.acceptsH_sound
